@@ -579,3 +579,23 @@ def coverage_extra(tier, seed, results):
         for k in ("family", "rep", "method", "bck", "grid", "rg", "cot", "order"):
             dims.setdefault(k, set()).add(r["cfg"][k])
     return {"dimension_values": {k: sorted(vv) for k, vv in dims.items()}}
+
+# ---- call-order plane (executed by mc/core.py in fresh interpreters, see mc/props/_hist_common.py): the result of
+# a call must not depend on which other calls (other dtype / method / size / options) were made before it
+_HIST_LABELS = [('float32', 'rk4'), ('float64', 'rk4'), ('float64', 'rk45'), ('float32', 'rk45'), ('float64', 'rk38')]
+HISTORY = {"labels": ["/".join(str(x) for x in c) for c in _HIST_LABELS], "tol": [0.001, 1e-11, 1e-07, 0.01, 1e-11],
+           "depth": {"quick": 2, "thorough": 3},
+           "prelude": r'''import torch, xitorch
+from xitorch.integrate import solve_ivp
+CALLS = %r
+def do(i):
+    dtn, method = CALLS[i]
+    dt = getattr(torch, dtn)
+    A = torch.tensor([[-0.3, 2.0], [-1.5, -0.3]], dtype=dt, requires_grad=True)
+    y0 = torch.tensor([1.0, -0.5], dtype=dt, requires_grad=True)
+    ts = torch.linspace(0.0, 1.0, 5, dtype=dt)
+    opts = {"atol": 1e-12, "rtol": 1e-9} if (method == "rk45" and dtn == "float64") else ({} if method != "rk45" else {"atol": 1e-6, "rtol": 1e-4})
+    yt = solve_ivp(lambda t, y, A: A @ y, ts, y0, params=(A,), method=method, **opts)
+    gA, gy = torch.autograd.grad((yt * yt).sum(), (A, y0))
+    return torch.cat([gA.reshape(-1), gy.reshape(-1)]).double().tolist()
+''' % (_HIST_LABELS,)}
